@@ -1,6 +1,7 @@
 package main
 
 import (
+	"math/big"
 	"encoding/json"
 	"fmt"
 	"os"
@@ -27,6 +28,9 @@ type replayFile struct {
 	Replay      string            `json:"replay_on_real_code"`
 	ReplayLog   string            `json:"replay_log,omitempty"`
 	ReplayTest  string            `json:"replay_test,omitempty"`
+	ReplayPkg   string            `json:"replay_pkg_dir,omitempty"`     // directory (under the module) the test is injected into
+	ReplayMark  string            `json:"replay_reproduced_if,omitempty"` // output substring that means "reproduced"
+	ReplayBD    bool              `json:"replay_bit_decomposition,omitempty"`
 	Explanation string            `json:"explanation"`
 }
 
@@ -55,10 +59,11 @@ func writeReplay(e *Engine, l *Loaded, prop string, g *groupResult, scratch stri
 				rf.SMTFile = smt
 			}
 		}
-		if ob.Result == "sat" && ob.Model != nil {
+		if (ob.Result == "sat" && ob.Model != nil) || (ob.run != nil && ob.run.fn != nil && funcKey(ob.run.fn) == "gates.GateInstanceFromId") {
 			ok, log, test, why := replayOnRealCode(e, l, ob, scratch)
 			rf.ReplayLog = log
 			rf.ReplayTest = test
+			rf.ReplayPkg, rf.ReplayMark, rf.ReplayBD = lastReplay.pkg, lastReplay.mark, lastReplay.bitDecomp
 			switch {
 			case ok:
 				rf.Replay = "confirmed: " + why
@@ -145,7 +150,7 @@ func cmdReplay(path string) int {
 		fmt.Println("model      " + modelSummary(rf.Model))
 	}
 	if rf.ReplayTest != "" {
-		ok, log := runReplayTest(rf.ReplayTest, rf.Function)
+		ok, log := runReplayTest(rf)
 		fmt.Println(log)
 		if ok {
 			fmt.Println("REPLAY: violation reproduced on the current tree")
@@ -156,6 +161,35 @@ func cmdReplay(path string) int {
 	return 0
 }
 
-func runReplayTest(test string, function string) (bool, string) {
-	return false, "no executable replay recorded"
+// lastReplay: how the most recent generated replay test is run again (filled by the replayers).
+var lastReplay struct {
+	pkg       string
+	mark      string
+	bitDecomp bool
+}
+
+// runReplayTest injects the recorded test into the current working tree of the module (go test -overlay) and
+// reports whether the violation is reproduced there.
+func runReplayTest(rf replayFile) (bool, string) {
+	if rf.ReplayPkg == "" || rf.ReplayMark == "" {
+		return false, "no executable replay recorded"
+	}
+	dir, err := os.MkdirTemp("", "govc-replay")
+	if err != nil {
+		return false, err.Error()
+	}
+	defer os.RemoveAll(dir)
+	pkgDir := filepath.Join(repoModuleDir, rf.ReplayPkg)
+	testFile := filepath.Join(dir, "zz_govc_replay_test.go")
+	os.WriteFile(testFile, []byte(rf.ReplayTest), 0o644)
+	ov := map[string]map[string]string{"Replace": {filepath.Join(pkgDir, "zz_govc_replay_test.go"): testFile}}
+	ovb, _ := json.Marshal(ov)
+	ovFile := filepath.Join(dir, "ov.json")
+	os.WriteFile(ovFile, ovb, 0o644)
+	var rc *big.Int
+	if rf.ReplayBD {
+		rc = big.NewInt(2)
+	}
+	out, _ := runGoTest(pkgDir, ovFile, rc)
+	return strings.Contains(out, rf.ReplayMark), out
 }
